@@ -153,7 +153,7 @@ CHECKS = {
     ref="DESIGN.md §5 C20"),
  "C15": dict(
     technique="Lean 4 proof (per-worker pipeline invariant of the channel-operation LTS M-PMAP in (round, slot) coordinates: output = input order, completeness at the end, one outstanding task per worker, deadlock freedom, drop lets workers exit, termination) + trace-level correspondence: the order of channel operations recorded under real thread interleavings by an env-guarded hook in parallel_map.rs is accepted by M-PMAP and reproduces the real output + output-level correspondence: cargo integration test of parallel_map and the rebuilt extension vs the Python reader C15Reg.lean (model M-REG: the keyed registry of native iterators with client handles): C15_fresh_keys_isolate_iterators - for every history of creations, reads and exits of any number of handles, if every new iterator is registered under a key not in the map at that moment, each handle is handed a prefix of its own examples - with the witnesses C15_key_from_map_size_crosses_streams / _then_panics; the staggered-lifetime history of three real Rust iterators is replayed on M-REG (driver endpoint reg), one iterator is kept open across 10300 others, and a straggling item in the cargo harness.",
-    text="C15_output_in_input_order, C15_only_items, C15_complete_at_end, C15_full_pass_is_the_input (a full pass returns exactly the input positions 0..n-1 in order), C15_terminates, C15_one_outstanding, C15_deadlock_free, C15_drop_lets_workers_exit for every worker count, input length and interleaving; SedpackProps/C15Drop.lean: C15_any_prefix_is_input_prefix (at every moment, dropped or not, the returned items are input positions 0..k-1 in order), C15_schedule_independent and C15_shorter_run_is_prefix (two executions under any two schedules and drop positions agree on their common prefix), C15_never_twice (no item is ever returned two times). "
+    text="C15_output_in_input_order, C15_only_items, C15_complete_at_end, C15_full_pass_is_the_input (a full pass returns exactly the input positions 0..n-1 in order), C15_terminates, C15_one_outstanding, C15_deadlock_free, C15_drop_lets_workers_exit for every worker count, input length and interleaving; SedpackProps/C15Drop.lean: C15_any_prefix_is_input_prefix (at every moment, dropped or not, the returned items are input positions 0..k-1 in order), C15_schedule_independent and C15_shorter_run_is_prefix (two executions under any two schedules and drop positions agree on their common prefix), C15_never_twice (no item is ever returned two times); C15DropShards.lean: C15_early_drop_is_python_prefix / C15_early_drop_prefix_of_full (the examples delivered up to any early drop are a prefix of the unshuffled Python output). "
          "parallel_map is driven by a cargo test (item-dependent delays, stalling consumer, early drops with /proc/self/task thread counts); the extension rebuilt from /repo/rust is compared with "
          "as_numpy_iterator for threads <,=,> #shards, all supported compressions, uneven shards, early close; the model's outputs under pseudo-random schedules are compared with both. With SEDPACK_VERIF=1 the hook records every worker recv / worker send / consumer next / drop in a global order consistent with the channel synchronisation; every recorded trace (three mapped functions with different delay profiles, 1..128 threads, full passes and early drops) must be accepted by M-PMAP step by step and leave the model with the output the iterator really produced."
          ' SedpackProps/C15Python.lean: C15_rust_equals_python - composed with the pipeline model of the Python interfaces, the unshuffled Rust reader and the synchronous / concurrent Python readers yield the same list for every thread count of either and every timing.',
